@@ -1,8 +1,10 @@
 // vsched: interposed epoll_wait / write for the Server::run vs interrupt() race (C14).  The kernel objects stay real; only
 // blocking is virtual: epoll_wait polls with time-out 0 and otherwise blocks the logical thread until some write() happened
-// (or its time-out passes in virtual time).  Linked with -Wl,--wrap=epoll_wait,--wrap=write.  Not instrumented.
+// (or its time-out passes in virtual time).  Linked with -Wl,--wrap=epoll_wait,--wrap=write,--wrap=eventfd_write,--wrap=send.  Not instrumented.
 #include "vsched.hpp"
 #include <sys/epoll.h>
+#include <sys/eventfd.h>
+#include <sys/socket.h>
 #include <unistd.h>
 extern "C" {
 int __real_epoll_wait(int, struct epoll_event*, int, int);
@@ -17,6 +19,25 @@ int __wrap_epoll_wait(int epfd, struct epoll_event* ev, int maxev, int timeout) 
     if (timeout == 0) return 0;
     if (!vsched::blockOn(&g_ioKey, timeout < 0 ? -1 : (long long)timeout * 1000000LL)) return __real_epoll_wait(epfd, ev, maxev, 0);
   }
+}
+// other ways to wake a poller that an implementation may choose: eventfd_write (glibc's wrapper around the 8 byte write) and send
+int __real_eventfd_write(int, eventfd_t);
+ssize_t __real_send(int, const void*, size_t, int);
+int __wrap_eventfd_write(int fd, eventfd_t v) {
+  if (!vsched::active() || vsched::self() < 0) return __real_eventfd_write(fd, v);
+  vsched::point("write");
+  int r = __real_eventfd_write(fd, v);
+  vsched::wakeAll(&g_ioKey);
+  vsched::point("after write");
+  return r;
+}
+ssize_t __wrap_send(int fd, const void* buf, size_t n, int flags) {
+  if (!vsched::active() || vsched::self() < 0) return __real_send(fd, buf, n, flags);
+  vsched::point("write");
+  ssize_t r = __real_send(fd, buf, n, flags);
+  vsched::wakeAll(&g_ioKey);
+  vsched::point("after write");
+  return r;
 }
 ssize_t __wrap_write(int fd, const void* buf, size_t n) {
   if (!vsched::active() || vsched::self() < 0) return __real_write(fd, buf, n);
